@@ -210,6 +210,29 @@ package provider
 //@ pure failedReply() = httpError() || (isResponse() && msgCurrent() && statusOf() != StatusCodeSuccess && carriesNoUserData() &&
 //@             (sentBody() || emitKind == 4 || (emitKind == 2 && emitCode == 302)))
 //@
+//@ func provider.checkCertificate$1
+//@   inline
+//@   enter ccCalls = ccCalls + 1
+//@   leave ccOK = (result == nil)
+//@
+//@ ## C07 (IdP-side half): a request is turned down only for one of the reasons the handler's steps stand for - a storage / key fault
+//@ ## or another infrastructure failure answered with an HTTP 5xx (signing key unavailable, reply could not be written), an unparsable
+//@ ## form, no SAMLRequest, SigAlg without Signature, the decoder failed, no Issuer, the issuer is not registered, the certificate /
+//@ ## redirect-signature / enveloped-signature validators returned an error, a required redirect signature or its algorithm is
+//@ ## missing, an enveloped signature value on the Redirect binding, no answerable consumer endpoint, the content check failed, or
+//@ ## persisting failed. Nothing else rejects: an added over-strict check fails this clause on its own exit (the failure of each
+//@ ## step of the chain reaches the postcondition as a return edge of its own: "splitreturns" on CheckFailed).
+//@ pure decSigValue() = as(decObj, "samlp.AuthnRequestType").Signature != nil && as(decObj, "samlp.AuthnRequestType").Signature.SignatureValue.Text != ""
+//@ pure ssoRejectionReason(p, r) = faulted || (httpError() && emitCode >= 500) || (pfCalls == old(pfCalls) + 1 && !pfOK) || formValue(r, "SAMLRequest") == "" ||
+//@             (formValue(r, "SigAlg") != "" && formValue(r, "Signature") == "") ||
+//@             (decCalls == old(decCalls) + 1 && !decOK) || (decCalls == old(decCalls) + 1 && decOK && as(decObj, "samlp.AuthnRequestType").Issuer == nil) ||
+//@             (spLookups == old(spLookups) + 1 && !spOK) || (ccCalls == old(ccCalls) + 1 && !ccOK) ||
+//@             (vrCalls == old(vrCalls) + 1 && !vrOK) || (vpCalls == old(vpCalls) + 1 && !vpOK) ||
+//@             (redirectBinding(r) && spLookups == old(spLookups) + 1 && spOK && signingRequired(p) && formValue(r, "Signature") == "") ||
+//@             (redirectBinding(r) && formValue(r, "Signature") != "" && formValue(r, "SigAlg") == "") ||
+//@             (redirectBinding(r) && decCalls == old(decCalls) + 1 && decOK && decSigValue()) ||
+//@             (acsCalls == old(acsCalls) + 1 && (acsUrl == "" || (acsBinding != PostBinding && acsBinding != RedirectBinding))) ||
+//@             (rcCalls == old(rcCalls) + 1 && !rcOK) || (persistCount == old(persistCount) + 1 && persistFailed)
 //@ func (*provider.IdentityProvider).ssoHandleFunc
 //@   inline
 //@   property C09
@@ -250,6 +273,8 @@ package provider
 //@   ensures C06.content-check-passed-on-the-persisted-request: accepted() ==> rcCalls == old(rcCalls) + 1 && rcOK && rcReq == persistReq && rcSP == spRef && rcVer == persistVer
 //@   ensures C06.request-and-signature-parameters: accepted() ==> formValue(r, "SAMLRequest") != "" && (formValue(r, "SigAlg") != "" ==> formValue(r, "Signature") != "")
 //@   ensures C06.issuer-lookup: accepted() ==> spOK && spLookups == old(spLookups) + 1
+//@   ensures C07.rejected-only-for-a-reason: !accepted() ==> ssoRejectionReason(p, r)
+//@   canary C07.canary-always-a-reason: ssoRejectionReason(p, r)
 //@ ## ---- logout endpoint ----
 //@ pure lrMsg() = as(encRef, "samlp.LogoutResponseType")
 //@ pure lreq() = as(decObj, "samlp.LogoutRequestType")
@@ -276,6 +301,9 @@ package provider
 //@             (getStr(deref(notOnOrAfter)) != "" && (!timeParseOK(deref(timeFormat), getStr(deref(notOnOrAfter))) || timeVal(deref(timeFormat), getStr(deref(notOnOrAfter))) <= clock)))
 //@   canary canary-always-ok: result == nil
 //@
+//@ pure logoutRejectionReason() = faulted || (httpError() && emitCode >= 500) || (pfCalls == old(pfCalls) + 1 && !pfOK) ||
+//@             (decCalls == old(decCalls) + 1 && !decOK) || (tcCalls == old(tcCalls) + 1 && !tcOK) ||
+//@             (decCalls == old(decCalls) + 1 && decOK && lreq().Issuer == nil) || (spLookups == old(spLookups) + 1 && !spOK)
 //@ func (*provider.IdentityProvider).logoutHandleFunc
 //@   inline
 //@   property C09
@@ -298,6 +326,7 @@ package provider
 //@   ensures C13,C02.body-only-when-no-location-is-known: emitKind == 3 ==> lrMsg().Destination == "" && (spLookups == old(spLookups) || !spOK || len(spSLS()) == 0 || spSLS()[0].Location == "")
 //@   ensures C13,C15.fresh-id: !httpError() ==> idIndex(lrMsg().Id) >= old(idCount) && lrMsg().Id == idOf(idIndex(lrMsg().Id))
 //@   ensures C10.fault-means-failure: faulted ==> httpError() || lrMsg().Status.StatusCode.Value != StatusCodeSuccess
+//@   ensures C07.non-success-only-for-a-reason: !logoutSuccess() ==> logoutRejectionReason()
 //@   canary C13.canary-never-success: !logoutSuccess()
 //@   canary C13.canary-always-success: !httpError() ==> logoutSuccess()
 //@ ## ---- attribute query endpoint ----
